@@ -1,0 +1,13 @@
+//go:build verif
+
+package tsdb
+
+// VerifGate, when set, is called at the gate points of the data family (verification harness only):
+// "writerows.gotdb" in WriteRows after the memory database to write into was obtained and before any row is written.
+var VerifGate func(point string)
+
+func verifGate(point string) {
+	if fn := VerifGate; fn != nil {
+		fn(point)
+	}
+}
